@@ -7,7 +7,7 @@
 (*  Part Match (C14): window/skew/last-counter search and its result       *)
 (*     classes, with the application feeding accepted counters back.       *)
 (***************************************************************************)
-EXTENDS Integers, Sequences, FiniteSets, SequencesExt, Prim
+EXTENDS Integers, Sequences, FiniteSets, SequencesExt, Prim, Codec
 
 \* ---------------------------------------------------------------- Generate
 \* RFC 4226 5.3: offset = low nibble of the last byte; 31-bit big-endian value
@@ -26,6 +26,16 @@ TokenDigits(d, n) == LET v == DT(d) IN
 CounterL(tl, p)  == LCanon(LDivMod(tl, p)[1])
 ExpireL(tl, p)   == LCanon(LMulSmall(LAddSmall(CounterL(tl, p), 1), p))
 StartL(tl, p)    == LCanon(LMulSmall(CounterL(tl, p), p))
+
+\* key text: blanks, '-' and '=' are ignored; base32 (typo tolerant, any case) or hex (any case)
+HexVal(c) == IF c \in 48..57 THEN c - 48 ELSE IF c \in 65..70 THEN c - 55 ELSE IF c \in 97..102 THEN c - 87 ELSE 99
+KeyFromText(fmt, txt) ==
+    LET s == SelectSeq(txt, LAMBDA c : c \notin {32, 9, 10, 11, 12, 13, 45, 61}) IN
+    IF fmt = "base32" THEN B32Decode(s)
+    ELSE IF fmt = "hex" THEN
+         IF Len(s) % 2 = 1 \/ \E i \in 1..Len(s) : HexVal(s[i]) = 99 THEN <<"ValueError">>
+         ELSE <<"ok", [k \in 1..(Len(s) \div 2) |-> HexVal(s[2*k-1]) * 16 + HexVal(s[2*k])]>>
+    ELSE <<"ok", txt>>      \* raw
 
 \* ------------------------------------------------------------------- Match
 \* Code: counter -> token symbol; "last" = -1 when the application has none.
